@@ -143,7 +143,8 @@ class RealSession:
         if k == "connack":
             return wire.enc_connack(p, sp=int(t[2]), rc=int(t[3]))
         if k in ("puback", "pubrec", "pubrel", "pubcomp"):
-            return wire.enc_ack(p, getattr(wire, k.upper()), int(t[2]))
+            rc = int(t[3][3:]) if len(t) > 3 and t[3].startswith("rc=") and p == 5 else None
+            return wire.enc_ack(p, getattr(wire, k.upper()), int(t[2]), rc=rc)
         if k == "publish":
             return wire.enc_publish(p, unhx(t[6]), unhx(t[7]), qos=int(t[2]), mid=int(t[3]), dup=int(t[4]), retain=int(t[5]))
         if k == "suback":
@@ -310,6 +311,14 @@ def gen_case(rng, tier, weights=None, maxlen=None):
         # an external event loop services write registrations
         if cfg["ext"] and sh.sock and rng.random() < 0.8 and not case[-1].startswith(("send", "tick", "cfg")):
             case.append("loop_write")
+    if proto == 5:
+        # MQTT 5: acknowledgements in the three-byte form with a reason code - also non-zero success codes (0x10 No matching
+        # subscribers) and failure codes; whatever the code, the handshake goes on as the protocol state machine says
+        for j, ln in enumerate(case):
+            tk = ln.split()
+            if len(tk) == 3 and tk[0] == "rx" and tk[1] in ("puback", "pubrec", "pubrel", "pubcomp") and rng.random() < 0.3:
+                rcs = [0, 16, 16, 16, 128, 135, 151] if tk[1] in ("puback", "pubrec") else [0, 146]
+                case[j] = ln + f" rc={rng.choice(rcs)}"
     return case
 
 
@@ -348,6 +357,10 @@ def _connack(rng, sh):
 
 def _publish(rng, sh, qos=None):
     q = qos if qos is not None else rng.choice([0, 1, 1, 2, 2])
+    if qos is None and rng.random() < 0.04:
+        # an argument publish() must refuse (wildcard in the topic, QoS 3): ValueError and no other effect (C19)
+        bq, bt = rng.choice([(q, b"a/+"), (q, b"#"), (3, b"t"), (q, b"t/#/x")])
+        return f"publish {bq} {hx(bt)} {hx(b'p')} 0"
     sh.mid = sh.mid % 65535 + 1
     if q > 0 and not (sh.cfg["M"] > 0 and len(sh.out) >= sh.cfg["M"]):
         sh.out[sh.mid] = (q, "sent")
@@ -496,7 +509,7 @@ def _next_op(rng, sh):
         return "loop_write"
     if r < 0.885:
         sh.mid = sh.mid % 65535 + 1
-        return f"subscribe {hx(rng.choice(TOPICS + [b'a/#', b'+/b', b'a+']))} {rng.choice([0, 1, 2])}"
+        return f"subscribe {hx(rng.choice(TOPICS + [b'a/#', b'+/b', b'a+', b'#/x']))} {rng.choice([0, 1, 2, 0, 1, 2, 3])}"
     if r < 0.90:
         sh.mid = sh.mid % 65535 + 1
         return f"unsubscribe {hx(rng.choice(TOPICS))}"
@@ -542,7 +555,7 @@ def _next_op(rng, sh):
 
 class SessionStream:
     name = "session"
-    props = ["C01", "C02", "C03", "C10", "C12", "C13", "C14", "C16"]
+    props = ["C01", "C02", "C03", "C10", "C12", "C13", "C14", "C16", "C19"]
     keep_prefix = 1
     from streams.session_monitors import MONITORS as monitors
 
